@@ -249,4 +249,92 @@ theorem handleResponses_spec (foe : Bool) (g : String) :
             obtain ⟨i1, i2, i3, hok⟩ := ih c h
             exact key _ i1 i2 i3 hok
 
+/-! ### the main path: produce / fetch / offset requests carry no group -/
+
+theorem invalidateOk_none_cons {c : Cache} {r : String × Int} {rs : List (String × Int)}
+    (h1 : (!clientTopicResetErrnos.contains r.2 || topicInvalid c r.1) = true)
+    (h : invalidateOk c none rs = true) : invalidateOk c none (r :: rs) = true := by
+  simp only [invalidateOk, List.all_cons, Bool.and_eq_true, Bool.or_true, Bool.and_true] at h ⊢
+  exact ⟨h1, h⟩
+
+theorem examineRest_none_spec (first : Raised) :
+    ∀ (rs : List (String × Int)) (c : Cache), CWf c → (∀ r ∈ rs, clientGroupResetErrnos.contains r.2 = false) →
+    (∀ t, topicInvalid c t = true → topicInvalid (examineRest none first c rs).1 t = true) ∧
+    CWf (examineRest none first c rs).1 ∧ invalidateOk (examineRest none first c rs).1 none rs = true := by
+  intro rs
+  induction rs with
+  | nil => intro c h _; exact ⟨fun _ h => h, h, by simp [invalidateOk]⟩
+  | cons r rs ih =>
+    intro c h hg
+    obtain ⟨topic, err⟩ := r
+    have hg0 : clientGroupResetErrnos.contains err = false := hg (topic, err) (by simp)
+    have hg' : ∀ r ∈ rs, clientGroupResetErrnos.contains r.2 = false := fun r hr => hg r (by simp [hr])
+    simp only [examineRest, clientHandleCatchAll, Bool.not_true, Bool.false_eq_true, if_false, hg0]
+    split
+    · rename_i h0
+      obtain ⟨i1, i3, hok⟩ := ih c h hg'
+      have he : err = 0 := by simpa using h0
+      refine ⟨i1, i3, invalidateOk_none_cons ?_ hok⟩
+      subst he; simp [clientTopicResetErrnos]
+    · split
+      · obtain ⟨i1, i3, hok⟩ := ih (resetTopic c topic) (resetTopic_wf h topic) hg'
+        refine ⟨fun t hi => i1 t (resetTopic_keeps_invalid t topic hi), i3, invalidateOk_none_cons ?_ hok⟩
+        simp only [Bool.or_eq_true]; exact Or.inr (i1 topic (resetTopic_invalid h topic))
+      · rename_i h0 ht
+        have hnt : (!clientTopicResetErrnos.contains err) = true := by simpa using ht
+        obtain ⟨i1, i3, hok⟩ := ih c h hg'
+        refine ⟨i1, i3, invalidateOk_none_cons ?_ hok⟩
+        simp only [Bool.or_eq_true]; exact Or.inl hnt
+
+/-- `_handle_responses` of a request that carries no group (produce, fetch, offset): every not-leader /
+    unknown-topic-or-partition answer of the list invalidates its topic, whatever `fail_on_error` is - provided no
+    answer carries a coordinator error code (with `consumer_group=None` that makes `reset_consumer_group_metadata`
+    raise `TypeError` at once) -/
+theorem handleResponses_none_spec (foe : Bool) :
+    ∀ (rs : List (String × Int)) (c : Cache), CWf c → (∀ r ∈ rs, clientGroupResetErrnos.contains r.2 = false) →
+    (∀ t, topicInvalid c t = true → topicInvalid (handleResponses c foe none rs).1 t = true) ∧
+    CWf (handleResponses c foe none rs).1 ∧ invalidateOk (handleResponses c foe none rs).1 none rs = true := by
+  intro rs
+  induction rs with
+  | nil => intro c h _; exact ⟨fun _ h => h, h, by simp [invalidateOk]⟩
+  | cons r rs ih =>
+    intro c h hg
+    obtain ⟨topic, err⟩ := r
+    have hg0 : clientGroupResetErrnos.contains err = false := hg (topic, err) (by simp)
+    have hg' : ∀ r ∈ rs, clientGroupResetErrnos.contains r.2 = false := fun r hr => hg r (by simp [hr])
+    simp only [handleResponses, afterFirst, clientHandleExaminesAll, clientHandleCatchAll, if_true, Bool.not_true, Bool.or_false, hg0,
+      Bool.false_eq_true, if_false]
+    split
+    · rename_i h0
+      obtain ⟨i1, i3, hok⟩ := ih c h hg'
+      have he : err = 0 := by simpa using h0
+      refine ⟨i1, i3, invalidateOk_none_cons ?_ hok⟩
+      subst he; simp [clientTopicResetErrnos]
+    · split
+      · have hw := resetTopic_wf h topic
+        cases foe with
+        | true =>
+          simp only [if_true]
+          obtain ⟨i1, i3, hok⟩ := examineRest_none_spec (.errno err) rs (resetTopic c topic) hw hg'
+          refine ⟨fun t hi => i1 t (resetTopic_keeps_invalid t topic hi), i3, invalidateOk_none_cons ?_ hok⟩
+          simp only [Bool.or_eq_true]; exact Or.inr (i1 topic (resetTopic_invalid h topic))
+        | false =>
+          simp only [Bool.false_eq_true, if_false]
+          obtain ⟨i1, i3, hok⟩ := ih (resetTopic c topic) hw hg'
+          refine ⟨fun t hi => i1 t (resetTopic_keeps_invalid t topic hi), i3, invalidateOk_none_cons ?_ hok⟩
+          simp only [Bool.or_eq_true]; exact Or.inr (i1 topic (resetTopic_invalid h topic))
+      · rename_i h0 ht
+        have hnt : (!clientTopicResetErrnos.contains err) = true := by simpa using ht
+        cases foe with
+        | true =>
+          simp only [if_true]
+          obtain ⟨i1, i3, hok⟩ := examineRest_none_spec (.errno err) rs c h hg'
+          refine ⟨i1, i3, invalidateOk_none_cons ?_ hok⟩
+          simp only [Bool.or_eq_true]; exact Or.inl hnt
+        | false =>
+          simp only [Bool.false_eq_true, if_false]
+          obtain ⟨i1, i3, hok⟩ := ih c h hg'
+          refine ⟨i1, i3, invalidateOk_none_cons ?_ hok⟩
+          simp only [Bool.or_eq_true]; exact Or.inl hnt
+
 end Afkak.ClientCache
